@@ -96,6 +96,10 @@ func (m *ConnackMessage) Decode(src []byte) (int, error) {
 		return total, err
 	}
 
+	if len(src[total:]) < 2 {
+		return total, fmt.Errorf("connack/Decode: Insufficient buffer size. Expecting %d, got %d", 2, len(src[total:]))
+	}
+
 	b := src[total]
 
 	if b&254 != 0 {
